@@ -355,6 +355,82 @@ type world struct {
 	// both of them Get or Has, i.e. holding the view's lock in read mode at the same time)
 	busy, busyR       [8]atomic.Int32
 	sameView, sameRdr atomic.Int64
+	// the debug wrapper: its access callback must run once, before the wrapped call, for every call whose command passes the
+	// filter the wrapper was built with - counted per command on both sides (cbBy: seen by the callback, expBy: issued)
+	dbg      bool
+	filter   debug.Command
+	cbBy     [8]atomic.Int64
+	expBy    [8]atomic.Int64
+	bare     kvstore.KVStore // the unwrapped root view
+	reenter  bool            // the callback of a mutation reads the store itself (it runs outside every lock), recorded in cbOps
+	cbMu     sync.Mutex
+	cbOps    []*hop
+	cbReads  atomic.Uint64
+	panicked atomic.Bool
+}
+
+var debugCmds = []debug.Command{debug.IterateCommand, debug.IterateKeysCommand, debug.ClearCommand, debug.GetCommand, debug.SetCommand,
+	debug.HasCommand, debug.DeleteCommand, debug.DeletePrefixCommand}
+
+var debugCmdOfKind = map[string]int{"iter": 0, "iterk": 1, "clear": 2, "get": 3, "set": 4, "has": 5, "del": 6, "delp": 7}
+
+// expect: a call of this kind is about to be issued through a view of this world.
+func (w *world) expect(kind string) {
+	if i, ok := debugCmdOfKind[kind]; ok && w.dbg && w.filter.HasBits(debugCmds[i]) {
+		w.expBy[i].Add(1)
+	}
+}
+
+// callback is the access callback handed to debug.New.
+func (w *world) callback(cmd debug.Command, _ ...[]byte) {
+	n := w.cb.Add(1)
+	for i, c := range debugCmds {
+		if c == cmd {
+			w.cbBy[i].Add(1)
+		}
+	}
+	if w.reenter && (cmd == debug.SetCommand || cmd == debug.DeleteCommand || cmd == debug.ClearCommand || cmd == debug.DeletePrefixCommand) {
+		// user code inside the callback uses the store: a complete call of the same goroutine, before the wrapped call starts
+		fk := universe[int(n)%len(universe)]
+		o := &hop{kind: "get", key: fk}
+		o.inv = w.clock.Add(1)
+		v, err := w.bare.Get([]byte(fk))
+		o.ret = w.clock.Add(1)
+		if err != nil {
+			o.out = errAns(err)
+		} else {
+			o.out = "val " + hx.Hex(v)
+		}
+		w.cbMu.Lock()
+		w.cbOps = append(w.cbOps, o)
+		w.cbMu.Unlock()
+		w.cbReads.Add(1)
+	} else if n%2 == 0 {
+		runtime.Gosched()
+	}
+}
+
+// checkCallbacks: the oracle of the debug wrapper's contract (independent of Lean): per command, the callback ran exactly as
+// often as calls of that command were issued and pass the filter.
+func (w *world) checkCallbacks(r *hx.Run, desc string) {
+	if !w.dbg || w.panicked.Load() {
+		return
+	}
+	names := []string{"Iterate", "IterateKeys", "Clear", "Get", "Set", "Has", "Delete", "DeletePrefix"}
+	for i := range debugCmds {
+		if got, want := w.cbBy[i].Load(), w.expBy[i].Load(); got != want {
+			r.Fail("debug-callback", fmt.Sprintf("debug wrapper (%s, filter %d): the access callback ran %d times for %s, %d calls of it were issued",
+				desc, w.filter, got, names[i], want), map[string]string{"oracle": "debug-callback", "command": names[i]})
+		}
+	}
+	r.CountN("debug-callbacks-expected", func() (n int) {
+		for i := range w.expBy {
+			n += int(w.expBy[i].Load())
+		}
+
+		return
+	}())
+	r.CountN("debug-callback-reads-of-the-store", int(w.cbReads.Load()))
 }
 
 // viewOf: the view a call goes through: a shared one, or (view < 0) the goroutine's private one - the shared view of the
@@ -372,16 +448,43 @@ func (w *world) viewOf(c *call) viewRec {
 
 var sharedRealms = []string{"", "\x01", "\x01\xff"} // realm of w.views[0..2]
 
+// nWraps: 0 bare mapdb, 1 flushkv, 2 debug, 3 flushkv(debug), 4 debug(flushkv)
+const nWraps = 5
+
 func newWorld(rng *hx.Rng, wrap int) *world {
-	w := &world{flush: wrap == 1 || wrap == 3}
+	w := &world{flush: wrap == 1 || wrap == 3 || wrap == 4, dbg: wrap >= 2}
 	var root kvstore.KVStore = mapdb.NewMapDB()
+	w.bare = root
+	// the filter the debug wrapper is built with: none given (= all commands), mutations only, reads only, or the one value that
+	// reports nothing (ShutdownCommand = 0)
+	var filterArgs []debug.Command
+	w.filter = debug.AllCommands
+	if w.dbg {
+		switch rng.Intn(5) {
+		case 0:
+			filterArgs = []debug.Command{debug.SetCommand, debug.DeleteCommand, debug.DeletePrefixCommand, debug.ClearCommand}
+		case 1:
+			filterArgs = []debug.Command{debug.GetCommand | debug.HasCommand, debug.IterateCommand, debug.IterateKeysCommand}
+		case 2:
+			filterArgs = []debug.Command{debug.ShutdownCommand}
+		}
+		if filterArgs != nil {
+			w.filter = 0
+			for _, f := range filterArgs {
+				w.filter |= f
+			}
+		}
+		w.reenter = rng.Bool()
+	}
 	switch wrap {
 	case 1:
 		root = flushkv.New(root)
 	case 2:
-		root = debug.New(root, func(debug.Command, ...[]byte) { w.cb.Add(1); runtime.Gosched() })
+		root = debug.New(root, w.callback, filterArgs...)
 	case 3:
-		root = flushkv.New(debug.New(root, func(debug.Command, ...[]byte) { w.cb.Add(1) }))
+		root = flushkv.New(debug.New(root, w.callback, filterArgs...))
+	case 4:
+		root = debug.New(flushkv.New(root), w.callback, filterArgs...)
 	}
 	must := func(v kvstore.KVStore, err error) kvstore.KVStore {
 		if err != nil {
@@ -565,6 +668,7 @@ func (w *world) exec(c *call, inCallback func()) []*hop {
 		}
 	}
 	var o hop
+	w.expect(c.kind)
 	switch c.kind {
 	case "mkview":
 		// flag-only call: it loads the closed flag and touches neither the map nor any lock; the new view has its OWN, free lock
@@ -702,6 +806,7 @@ func (w *world) exec(c *call, inCallback func()) []*hop {
 			return []*hop{fl} // nothing touched the map
 		}
 		for _, wr := range c.writes {
+			w.expect(wr.kind)
 			if wr.kind == "set" {
 				_ = b.Set([]byte(wr.key), []byte(wr.val))
 			} else {
@@ -756,7 +861,7 @@ type result struct {
 }
 
 func runStress(rng *hx.Rng, r *hx.Run) result {
-	wrap := rng.Intn(4)
+	wrap := rng.Intn(nWraps)
 	allowClose := rng.Chance(1, 4)
 	g := rng.Range(2, 16)
 	// keep histories checkable: the more goroutines, the fewer calls each
@@ -788,6 +893,7 @@ func runStress(rng *hx.Rng, r *hx.Run) result {
 				c := &plans[i][j]
 				sem <- struct{}{}
 				if p := hx.Safely(func() { recs[i] = append(recs[i], w.exec(c, nil)...) }); p != "" {
+					w.panicked.Store(true)
 					recs[i] = append(recs[i], &hop{inv: w.clock.Add(1), ret: w.clock.Add(1), kind: "get", key: "panic", out: "panic"})
 				}
 				<-sem
@@ -812,6 +918,8 @@ func runStress(rng *hx.Rng, r *hx.Run) result {
 	for _, rs := range recs {
 		res.ops = append(res.ops, rs...)
 	}
+	res.ops = append(res.ops, w.cbOps...)
+	w.checkCallbacks(r, res.desc)
 	r.Count(fmt.Sprintf("goroutines:%02d", g))
 	r.Count(fmt.Sprintf("inflight:%02d", inflight))
 	r.Count(fmt.Sprintf("wrap:%d", wrap))
@@ -924,9 +1032,10 @@ func runFlushClose(rng *hx.Rng, r *hx.Run) result {
 // the fixed content gives; the emitted history (the content's Sets, every wrong answer, a few right ones) is decided by the
 // checkers like any other.  (Readers hold only read locks: anything they share besides the map is unprotected.)
 func runReaders(rng *hx.Rng, r *hx.Run) result {
-	wrap := rng.Intn(4)
+	wrap := rng.Intn(nWraps)
 	res := result{desc: fmt.Sprintf("readers wrap=%d", wrap)}
 	w := newWorld(rng, wrap)
+	w.reenter = false // the emitted history is a reduced one
 	root := w.views[0].v
 	v1, err := root.WithExtendedRealm([]byte{0xaa})
 	if err != nil {
@@ -984,6 +1093,7 @@ func runReaders(rng *hx.Rng, r *hx.Run) result {
 		r.Fail("fixed-content", fmt.Sprintf("read-only phase (%s): %s although nobody writes; content: key i -> [i+1 01] for i<8 under aabb", res.desc, o.line()),
 			map[string]string{"oracle": "fixed-content", "scenario": "readers", "op": o.kind})
 	}
+	w.checkCallbacks(r, res.desc)
 	r.Count("scenario:readers")
 	r.CountN("readers-wrong-answers", nbad)
 
@@ -1004,9 +1114,10 @@ func firstOf(xs [][]*hop) *hop {
 // view; three readers Get the key through ANOTHER view.  Every value read must be uniform.  The emitted history is compact:
 // around every non-uniform read the writer's Sets that can matter for it; otherwise a short prefix of the run.
 func runTorn(rng *hx.Rng, r *hx.Run) result {
-	wrap := rng.Intn(4)
+	wrap := rng.Intn(nWraps)
 	res := result{desc: fmt.Sprintf("torn wrap=%d", wrap)}
 	w := newWorld(rng, wrap)
+	w.reenter = false // the emitted history is a reduced one
 	gens := 300
 	const size = 4096
 	fill := func(b byte) string { return strings.Repeat(string([]byte{b}), size) }
@@ -1113,6 +1224,7 @@ func runTorn(rng *hx.Rng, r *hx.Run) result {
 			res.ops = append(res.ops, st)
 		}
 	}
+	w.checkCallbacks(r, res.desc)
 	r.Count("scenario:torn")
 	r.CountN("torn-values", nbad)
 
@@ -1123,7 +1235,7 @@ func runTorn(rng *hx.Rng, r *hx.Run) result {
 // the other way round on a second key); readers Has / Get / IterateKeys the keys through another view.  A batch's effect on
 // a key is its last call for that key, as ONE write: the first key must never be seen missing.
 func runBatchFlip(rng *hx.Rng, r *hx.Run) result {
-	wrap := rng.Intn(4)
+	wrap := rng.Intn(nWraps)
 	res := result{desc: fmt.Sprintf("batchflip wrap=%d", wrap)}
 	w := newWorld(rng, wrap)
 	commits := 120
@@ -1176,6 +1288,8 @@ func runBatchFlip(rng *hx.Rng, r *hx.Run) result {
 	for _, rs := range recs {
 		res.ops = append(res.ops, rs...)
 	}
+	res.ops = append(res.ops, w.cbOps...)
+	w.checkCallbacks(r, res.desc)
 	r.Count("scenario:batchflip")
 	r.CountN("batchflip-key-seen-missing", int(missing.Load()))
 
@@ -1186,7 +1300,7 @@ func runBatchFlip(rng *hx.Rng, r *hx.Run) result {
 // goroutines delete / overwrite / add entries of the iterated range and return; the iteration must
 // still report its snapshot (and must not block the writers).
 func runSnapshot(rng *hx.Rng, r *hx.Run) result {
-	wrap := rng.Intn(4)
+	wrap := rng.Intn(nWraps)
 	w := newWorld(rng, wrap)
 	res := result{desc: fmt.Sprintf("snapshot wrap=%d", wrap)}
 	// fill
@@ -1238,6 +1352,8 @@ func runSnapshot(rng *hx.Rng, r *hx.Run) result {
 	// afterwards: what is there now
 	c := call{kind: "iter", view: 0, key: "", dirTok: "fwd"}
 	res.ops = append(res.ops, w.exec(&c, nil)...)
+	res.ops = append(res.ops, w.cbOps...)
+	w.checkCallbacks(r, res.desc)
 	r.Count("scenario:snapshot")
 
 	return res
@@ -1381,7 +1497,7 @@ func main() {
 		rng, sub := r.Rng.Fork()
 		wrap := 0
 		if p%2 == 1 {
-			wrap = rng.Intn(4)
+			wrap = rng.Intn(nWraps)
 		}
 		if died, oracle := runProbe(r, sub, genProbePlan(rng, wrap, rng.Range(6, 12), 24, rounds), p); died {
 			if oracle != "deadlock" {
